@@ -505,6 +505,7 @@ def arg_cases(ctx):
 
 DECL_P = dict(declared=True, shared_k=True, append_inline=True, open_take=False, dup_names=False)
 DECL_K = dict(declared=True, shared_k=False, append_inline=True, open_take=False, dup_names=False)
+DUP_P = dict(declared=True, shared_k=True, append_inline=False, open_take=True, dup_names=True)
 UNDECL_P = dict(declared=False, shared_k=False, append_inline=True, open_take=False, dup_names=False)
 
 # hand-written programs for the parts of the model the generator does not reach: (program, model program, expected class, expected name)
@@ -613,6 +614,7 @@ def run(ctx):
     corpus_cases(ctx)
     explore(ctx, "declared-shared-k", fixed, 500 if quick else 4000, DECL_P, quick)
     explore(ctx, "declared", fixed, 300 if quick else 2500, DECL_K, quick)
+    explore(ctx, "declared-dup-names", fixed, 300 if quick else 2500, DUP_P, quick)
     explore(ctx, "undeclared", fixed, 300 if quick else 2500, UNDECL_P, quick)
     explore(ctx, "seed-tail-declared", ctx.rng, 300 if quick else 4000, DECL_P, quick)
     explore(ctx, "seed-tail-undeclared", ctx.rng, 200 if quick else 2000, UNDECL_P, quick)
